@@ -89,7 +89,10 @@ def run_job(prop, spec, job, tier, workdir, workers, seed, known_open):
                  maxpaths=opt(e, job, spec, tier, "maxpaths", 100000), solver=opt(e, job, spec, tier, "solver", "z3"),
                  fallback=opt(e, job, spec, tier, "fallback", "z3-new"), queryms=opt(e, job, spec, tier, "queryms", 30000),
                  steps=opt(e, job, spec, tier, "steps", 3000000), witnesses=opt(e, job, spec, tier, "witnesses", 6),
-                 cross=opt(e, job, spec, tier, "cross", ""), budget=opt(e, job, spec, tier, "budget", 600), maxtimers=opt(e, job, spec, tier, "maxtimers", 6), relaxtrunc=bool(opt(e, job, spec, tier, "relaxtrunc", False)))
+                 cross=opt(e, job, spec, tier, "cross", None), budget=opt(e, job, spec, tier, "budget", 600), maxtimers=opt(e, job, spec, tier, "maxtimers", 6), relaxtrunc=bool(opt(e, job, spec, tier, "relaxtrunc", False)))
+        if o["cross"] is None:
+            # thorough tier: every discharged (unsat) check query is re-decided by the other z3 version
+            o["cross"] = ("z3" if o["solver"] != "z3" else "z3-new") if tier == "thorough" else ""
         groups.setdefault(json.dumps(o, sort_keys=True), []).append(e)
     results = []
     for gi, (okey, entries) in enumerate(groups.items()):
@@ -258,6 +261,9 @@ def cmd_run(prop, tier, seed):
             inconclusive.append("%s: %d path(s) ended as %s (%s)" % (r["entry"], v, k, "; ".join(x[:200] for x in msgs)))
         if r["truncated"]:
             inconclusive.append("%s: path budget exhausted" % r["entry"])
+        for k, n in (r.get("cross") or {}).items():
+            if k.endswith(":sat") or k.endswith(":error"):
+                inconclusive.append("%s: cross-check solver answered %s on %d discharged queries" % (r["entry"], k, n))
         # expected reach markers
         exp = next((e for e in job["entries"] if e["name"] == r["entry"]), {})
         for rid in exp.get("must_reach", ["end"]):
